@@ -106,7 +106,7 @@ def decodePoint (ty form input : String) : Except String Json := do
       let ex2 := match s with | .ok v => [("spec_bytes", (hexOfBytes (f12Bytes v) : Json))] | _ => []
       pure (mk i.tag s.tag (ex ++ ex2))
     | _ =>
-      let i := implG2Bytes bs
+      let i := if ty = "PointG2Inf" then implG2BytesInf bs else implG2Bytes bs
       let s := specG2Bytes (ty = "PointG2Inf") bs
       let ex := match i with | .ok v => [("canon", (hexOfBytes v.g2Bytes : Json)), ("bytes", (hexOfBytes v.g2Bytes : Json)), ("inf", (toJson (v == AffPt.inf)))] | _ => []
       let ex2 := match s with | .ok v => [("spec_bytes", (hexOfBytes v.g2Bytes : Json)), ("spec_inf", toJson (v == AffPt.inf))] | _ => []
@@ -357,12 +357,19 @@ where
       let keys := o.toList.map (·.1)
       let names := fs.map (·.name)
       let a := keys.foldl (fun a k => if names.contains k then a else a.bad path s!"unexpected field {k}") a
+      -- binary formats carry every field (fields are omitted in human-readable formats only)
       let a := match jb with
-        | some b => if (objKeys b).map sortStrs = some (sortStrs keys) then a else a.bad path "binary document has other fields"
+        | some b => if (objKeys b).map sortStrs = some (sortStrs names) then a else a.bad path "binary document does not carry exactly the declared fields"
         | none => a
       fs.foldl (fun a f =>
         match o.get? f.name with
-        | none => if f.skip = .never then a.bad path s!"field {f.name} missing" else a
+        | none =>
+          if f.skip = .never then a.bad path s!"field {f.name} missing"
+          else match f.skip, jb.bind fun b => (b.getObjVal? f.name).toOption with
+            | _, none => a
+            | .ifNone, some .null => a
+            | .ifEmpty, some (.arr #[]) => a
+            | _, some _ => a.bad path s!"field {f.name} omitted in JSON but the binary form carries a value"
         | some v =>
           let a := match f.skip, v with
             | .ifNone, .null => a.bad path s!"field {f.name} written although None"
